@@ -37,6 +37,18 @@ def bindsExactly (tbl : List FnSite) (caller callee : String) (idx : Nat) (path 
   | some s => s.path == path && s.bind == want
   | none => false
 
+/-- the calls of `callee` in `caller` that are reached with `cond` as the innermost branch test that holds (the last
+    entry of the path: earlier entries are the negations of exclusive tests on the same variable, whose number and order
+    depend on how the `if / elif` chain is written) -/
+def sitesUnder (tbl : List FnSite) (caller callee cond : String) : List FnSite :=
+  tbl.filter (fun s => s.caller == caller && s.callee == callee && s.path.getLast? == some cond)
+
+/-- exactly one call of `callee` is reached under `cond`, and it binds exactly the listed parameters -/
+def bindsUnder (tbl : List FnSite) (caller callee cond : String) (want : List (String × String)) : Bool :=
+  match sitesUnder tbl caller callee cond with
+  | [s] => s.bind == want
+  | _ => false
+
 /-- the tracked calls of a function, in source order -/
 def callsOf (tbl : List FnSite) (caller : String) : List String :=
   (tbl.filter (fun s => s.caller == caller)).map (·.callee)
